@@ -398,7 +398,7 @@ func (fc *FnCtx) fnModifies(fn *ssa.Function, depth int) ([]keySort, bool) {
 	if ct != nil && !ct.Inline {
 		return fc.contractKeys(ct, fn, fn.Signature, nil)
 	}
-	if (ct != nil && ct.Inline) || fc.eng.autoInline(fn) {
+	if (ct != nil && ct.Inline) || (fn.Parent() != nil && len(fn.Blocks) > 0) {
 		if depth > 4 {
 			return nil, true
 		}
@@ -566,7 +566,7 @@ func (br *bodyRun) applyContract(st *State, ct *Contract, key string, names []st
 	short := shortKey(key)
 	fc.callOrd[short]++
 	ord := fc.callOrd[short]
-	env := &SpecEnv{fc: fc, st: st, old: st, pkg: pkg, vars: map[string]TV{}}
+	env := &SpecEnv{fc: fc, st: st, old: st, pkg: pkg, vars: map[string]TV{}, alias: fc.eng.aliasFor(fc.eng.fnByKey[fc.eng.fullKey(key)])}
 	if pkg == nil {
 		env.pkg = br.fn.Pkg.Pkg
 	}
@@ -657,7 +657,7 @@ func (br *bodyRun) applyContract(st *State, ct *Contract, key string, names []st
 			fc.assume(st, fc.typeInv(st, rt, res))
 		}
 	}
-	penv := &SpecEnv{fc: fc, st: st, old: pre, pkg: env.pkg, vars: map[string]TV{}}
+	penv := &SpecEnv{fc: fc, st: st, old: pre, pkg: env.pkg, vars: map[string]TV{}, alias: env.alias}
 	for k, v := range env.vars {
 		penv.vars[k] = v
 	}
@@ -768,6 +768,12 @@ func (br *bodyRun) inlineCall(st *State, fn *ssa.Function, bindings []Val, args 
 	}
 	fc.depth++
 	defer func() { fc.depth-- }()
+	if ct == nil && fn.Parent() == nil {
+		// a helper without contract executed in place: its own panics were never obligations
+		// of the caller (the helper is not under contract); only its effect is wanted
+		fc.quiet++
+		defer func() { fc.quiet-- }()
+	}
 	saved := map[ssa.Value]Val{}
 	for i, p := range fn.Params {
 		saved[p] = fc.vals[p]
@@ -897,6 +903,9 @@ func (br *bodyRun) userAsserts(b *ssa.BasicBlock, idx int, ins ssa.Instruction, 
 				fmt.Sscanf(name[j+1:], "%d", &ord)
 				name = name[:j]
 			}
+			if a, ok := fc.eng.aliasFor(br.fn)[name]; ok {
+				name = a
+			}
 			if sto, isStore := ins.(*ssa.Store); isStore {
 				// a variable that lives in a cell: every store into it, in source order
 				if a, ok := sto.Addr.(*ssa.Alloc); ok && a.Comment == name {
@@ -932,7 +941,11 @@ func (br *bodyRun) userAsserts(b *ssa.BasicBlock, idx int, ins ssa.Instruction, 
 		case len(fs) == 3 && fs[1] == "closure":
 			// the instruction that creates the closure assigned to the named local variable
 			if mc, ok := ins.(*ssa.MakeClosure); ok {
-				match = closureName(mc.Fn.(*ssa.Function)) == fs[2]
+				want := fs[2]
+				if a, ok := fc.eng.aliasFor(br.fn)[want]; ok {
+					want = a
+				}
+				match = closureName(mc.Fn.(*ssa.Function)) == want
 			}
 		case len(fs) == 2 && strings.HasPrefix(fs[1], "return"):
 			_, match = ins.(*ssa.Return)
